@@ -894,7 +894,13 @@ def run(ctx):
                 "uniform grid over the same box families (non-trivial when more than one parameter / always for scaled designs); "
                 "run cases: NSGAII, EpsMOEA, OMOPSO, SMPSO, PSOGA with N in {2,3,5,8} (thorough up to 20), G in {1,2,4} (thorough up to 7), "
                 "9 box templates incl. declared precisions, evaluation failures injected with probability 0 / 0.15 / 0.4, prob_mutation default / 0.5 / 1 "
-                "(one case = one whole run; non-trivial unless it is an NSGA-II run with a single generation, which has no variation step)")
+                "(one case = one whole run; non-trivial unless it is an NSGA-II run with a single generation, which has no variation step). "
+                "Histories (red-team round 2): the declared box is changed IN PLACE on the shared parameter list (bounds list rebound / its items "
+                "assigned / the parameter dict replaced; tightened, widened, shifted away) between two calls on long-lived operator and generator "
+                "objects (40% of the operator streams and mixed histories) and, per algorithm, after the algorithm object was built - before its "
+                "first run or between two runs of the same object, optionally with a second algorithm object built afterwards; every call / run is "
+                "judged on the box current at that moment. Parameter names: x0.., x_1..x_12, reverse alphabetical, words, shuffled; a directed DoE "
+                "stream gives each of 2..12 such parameters its own disjoint box [10k, 10k+1] and runs every generator on it")
     rhist = {"runs": {}, "evaluated_vectors": 0, "failed_evaluations": 0, "coordinates_on_a_bound": 0, "generation_steps": 0,
              "breed_passes": 0, "runs_aborted_by_complex_power": 0, "runs_skipped_nan": 0, "swarm_reordered_steps": 0, "rerolled_individuals": 0,
              "clipped_in_runs": 0, "children_dropped_by_duplicate_filter": 0}
